@@ -2,7 +2,8 @@
 //!
 //! History of `update_price_feed_with_chainlink(_idempotent)` transactions on 1–3 custom feeds (all report
 //! schemas) with out-of-order, replayed, delayed, lost, future-dated, expired, inverted, negative and corrupted
-//! reports, byzantine signers, under normal / stalled / jumping / regressing clocks.
+//! reports, byzantine signers, under normal / stalled / coarse / jumping clocks (never backwards:
+//! the cluster clock is non-decreasing).
 
 use chainsim::deploy::Dep;
 use chainsim::report::ReportSpec;
@@ -20,7 +21,8 @@ pub enum ClockMode {
     Normal,
     Stall,
     Jumpy,
-    Regress,
+    /// Coarse clock: many slots share one timestamp, then it advances by several seconds at once.
+    Coarse,
 }
 
 #[derive(Clone, Debug, Serialize, Deserialize)]
@@ -190,7 +192,7 @@ impl Scenario for FeedHistory {
         let clock = if !faults {
             *r.pick(&[ClockMode::Normal, ClockMode::Normal, ClockMode::Stall])
         } else {
-            *r.pick(&[ClockMode::Normal, ClockMode::Stall, ClockMode::Jumpy, ClockMode::Regress, ClockMode::Regress])
+            *r.pick(&[ClockMode::Normal, ClockMode::Stall, ClockMode::Jumpy, ClockMode::Coarse])
         };
         let max_future_excess = if faults {
             *r.pick(&[0u64, 0, 5, 60, 600, 86_400, u64::MAX])
@@ -232,14 +234,9 @@ impl Scenario for FeedHistory {
                             (s * 2, s)
                         }
                     },
-                    ClockMode::Regress => match r.below(5) {
-                        0 => (0, -(r.range(1, 120) as i64)),
-                        1 => (-(r.range(1, 50) as i64), -(r.range(0, 60) as i64)),
-                        2 => (-(r.range(1, 5) as i64), r.range(0, 5) as i64),
-                        _ => {
-                            let s = r.range(1, 20) as i64;
-                            (s * 2, s)
-                        }
+                    ClockMode::Coarse => match r.below(4) {
+                        0 => (r.range(5, 40) as i64, r.range(5, 20) as i64),
+                        _ => (r.range(1, 3) as i64, 0),
                     },
                 };
                 steps.push(Step::Clock { dslot, dsec });
@@ -299,9 +296,8 @@ impl Scenario for FeedHistory {
             obs.set_step(i);
             match st {
                 Step::Clock { dslot, dsec } => {
-                    if *dsec < 0 || *dslot < 0 {
-                        obs.fault("clock_regress");
-                    } else if *dsec == 0 {
+                    let (dsec, dslot) = (&(*dsec).max(0), &(*dslot).max(0));
+                    if *dsec == 0 {
                         obs.fault("clock_stall");
                     } else if *dsec > 3_600 {
                         obs.fault("clock_jump");
